@@ -6,3 +6,11 @@ import EbisimProofs.Props.C14
 #print axioms C14.barrier_correction
 #print axioms C14.trap_potential
 #print axioms C14.overrides_verbatim
+#print axioms C14.linspace_open
+#print axioms C14.geomspace_closed
+#print axioms C14.pairwise_map_range
+#print axioms C14.grid_spec
+#print axioms C14.argmin_go_zero
+#print axioms C14.argmin_go_hit
+#print axioms C14.argminSq_hit
+#print axioms C14.beam_edge_index
